@@ -79,6 +79,21 @@ def faults(q):
                 kb.setdefault("ports", []).append({"name": "cyc_out", "direction": "output", "size": 1})
                 m["connections"].append({"source": f"{b}.cyc_out", "target": f"{a}.cyc_in"})
                 yield (f"connection cycle {a}->{b}->{a} at {'.'.join(path) or 'root'}", d)
+        # self-cycle: an existing wire k.out -> T is led through a new THROUGH port of k itself (k.out -> k.loop, k.loop -> T);
+        # every port stays connected exactly once, qref's verify_topology does not see it (F13), only the ordering of the children does
+        for i, c in enumerate(conns):
+            if "." in c["source"]:
+                a = c["source"].split(".")[0]
+                d = copy.deepcopy(q)
+                m = at(d)
+                ka = next(k for k in m["children"] if k["name"] == a)
+                if ka.get("repetition"):
+                    continue
+                ka.setdefault("ports", []).append({"name": "loop", "direction": "through", "size": None})
+                m["connections"][i] = {"source": c["source"], "target": f"{a}.loop"}
+                m["connections"].append({"source": f"{a}.loop", "target": c["target"]})
+                yield (f"connection cycle {a}->{a} (own through port) at {'.'.join(path) or 'root'}", d)
+                break
         # repetition faults
         if n.get("repetition"):
             d = copy.deepcopy(q)
